@@ -342,3 +342,16 @@ def c20(ctx):
     return ctx.finish(explanation="limits enforced on both sides: reader bounds mirrored by writer-side argument errors before mutation, column-count limits, catalog width "
                       "disagreement covered by pre-validation, no error after mutation, and the panic inventory of the mutating paths (the deliberate capacity panics of "
                       "StringPool::incref are a known finding). Exact boundary arithmetic is not decided")
+
+
+@prop("C03")
+def c03(ctx):
+    from .rules import relational, eam, dml
+    relational.run(ctx)
+    eam.m_tgt(ctx)
+    dml.del_only_retain(ctx)
+    dml.ord1(ctx)
+    ctx.note("NOT decided: which rows a predicate selects, the values of updated cells, equality with a relational model over histories. Only the structural necessary "
+             "conditions named by the rules are decided.")
+    return ctx.finish(explanation="PARTIAL: structural necessary conditions of the relational behaviour (filter polarity and scope, assignment target, projection order, exact-size iteration, "
+                      "insertion without filtering, one stream rewritten per statement, order-preserving deletion, key-ordered emission). Extensional equality with a relational model is NOT decided")
